@@ -4,7 +4,10 @@ spec/Pruner.tla mirrors get_next_prunable_batch (window edges, candidate algebra
 synced ranges, daser permission) and the removal loop (blockstore CIDs first, then the header)
 with an environment of time, inserts, sampling marks and a daser that starts sampling what it
 has not promised.  MC_Pruner: TLC exhaustive for both orderings of the two windows with
-invariants SafeRemoval (C35) and NoLeak (by-product: no orphan CID in the blockstore).
+invariants SafeRemoval (C35) and NoLeak (by-product: no orphan CID in the blockstore).  PrunerBatch.tla refines the
+decision into its store calls (cut-offs fixed first, three range reads, decision on the snapshots, removals one by
+one) with syncer inserts, sampling starts/ends and the clock interleaved; SafeRemoval is evaluated on the state in
+which each removal happens.
 <-B: the real Pruner over a recording store and recording blockstore (calls logged at call time)
 with a scripted daser that refuses the blocks it 'is sampling' and others by coin; random stores
 with gaps, pruned holes, sampled marks, metadata; both window orderings.  Trace_Pruner tracks the
@@ -43,6 +46,16 @@ def run(ck):
         ck.tlc_mc("MC_Pruner", ck.cfg_with("MC_Pruner.cfg", {"WPrune": wp, "N": 4 if ck.quick else 5},
                                             name=f"MC_Pruner_{wp}.cfg"), tag=f"mc_{wp}", timeout=3000,
                   required_actions=["ComputeBatch", "RemoveNext", "Tick", "InsertH", "MarkH", "StartSampling"])
+    # the decision as separate store calls with the syncer, the daser and the clock in between
+    # (PrunerBatch.tla), both window orderings; a design that does not ask the daser must be refuted
+    nb = 3 if ck.quick else 4
+    for ws, wp in ((3, 1), (2, 3)):
+        ck.tlc_mc("PrunerBatch", ck.cfg_with("PrunerBatch.cfg", {"N": nb, "WSamp": ws, "WPrune": wp, "MaxNow": nb + 2},
+                                              name=f"PrunerBatch_{wp}.cfg"), tag=f"mc_batch_{wp}", timeout=3000, workers=4,
+                  required_actions=["Begin", "Read1", "Read2", "Decide", "RemoveNext", "SyncInsert", "StartSampling",
+                                    "FinishSampling", "Tick"])
+    ck.tlc_mc("PrunerBatch", ck.cfg_with("PrunerBatch.cfg", {"N": 4, "NoAsk": "TRUE"}, name="PrunerBatch_noask.cfg"),
+              tag="mc_batch_noask", timeout=3000, workers=4, expect_violation="SafeRemoval")
     # the composition: real pruner + real daser + syncer designs together (system-level SafeRemoval etc.)
     for ws, wp in ((3, 1), (2, 3)):      # pruning window smaller / larger than the sampling window
         ck.tlc_mc("MC_Node", ck.cfg_with("MC_Node.cfg", {"WSamp": ws, "WPrune": wp, "N": 4 if ck.quick else 5},
